@@ -431,6 +431,9 @@ def vec_ctor(ex, t, sh, ctype, args, n):
     el = sh[1]
     args = [a for a in args if a.get('kind') != 'CXXDefaultArgExpr']
     if not args:
+        if len(sh) == 3:
+            # std::array<T, N> / T[N] default-initialised: N elements of indeterminate value
+            return VecVal(z3.IntVal(sh[2]), fresh(el, ex.fresh_name('uninit_array'), 1), el)
         return default_value(sh)
     a0 = ex.ev(args[0])
     if isinstance(a0, RefVal):
